@@ -47,7 +47,7 @@ ChooseMany ==
   /\ n' = BigN
   /\ kinds' = [j \in 1..BigN |-> "null"] /\ len' = [j \in 1..BigN |-> 1] /\ sep' = [j \in 1..BigN |-> 1]
   /\ idx' \in {1, BigN \div 2, BigN}
-  /\ filter' \in Filters /\ hdrsep' \in HdrSeps /\ lenstore' = "direct"
+  /\ filter' \in Filters /\ hdrsep' \in HdrSeps \ {"tight"} /\ lenstore' = "direct"
   /\ phase' = "slice"
   /\ UNCHANGED <<start, end, result>>
 
@@ -61,6 +61,8 @@ Choose ==
             /\ \A j \in 1..(nn - 1) : ss[j] = 0 => ks[j + 1] \in DelimStart
             /\ kinds' = ks /\ len' = ls /\ sep' = ss /\ idx' = i
   /\ filter' \in Filters /\ hdrsep' \in HdrSeps /\ lenstore' \in LenStores
+  \* "tight": nothing stands between the last number of the header and the first member, which then has to start with a delimiter
+  /\ (hdrsep' = "tight" => kinds'[1] \in DelimStart)
   /\ (lenstore' # "direct" => kinds'[idx'] = "int")       \* the /Length twin is an integer member
   /\ phase' = "slice"
   /\ UNCHANGED <<start, end, result>>
